@@ -1,11 +1,16 @@
 """C14 - every operation returns with the container lock released."""
-import cross
+import os
+import cross, refcheck, pipeline
 LEVEL = "fault_enumeration"
 
 
 def run(chk, tier, seed):
     cross.run_cross(chk, tier, seed, owned={"lock"}, flagsets=["t", "ta"] + (["tf"] if tier == "thorough" else []), modes=["plain"],
                     containers=cross.LOCKABLE)
+    # the fifth lock user: the logger
+    wd = pipeline.workdir("qlog")
+    jobs = [dict(tag="qlog-%s" % (fl.strip("-") or "n"), args=[30 if tier == "quick" else 200, seed, wd, fl, "{out}"]) for fl in ("-", "a", "f")]
+    refcheck.gen_and_validate(chk, "qlogdrv", jobs, "LockBalanceTrace", threads=3)
     chk.cov["rule"] = ("every transition of the container models (all operations x all outcome classes the specs distinguish: success, invalid index, "
                        "missing key, empty, full) replayed on containers created with the *_THREADSAFE option, once plainly and once with every allocation "
                        "inside each call made to fail in turn; the lock tracer (--wrap=pthread_mutex_trylock/lock/unlock) reports the lock depth delta of "
